@@ -388,7 +388,7 @@ func (d *Doc) CheckContent(cs Case) []Problem {
 	for k, ms := range cs.Models {
 		obs[k].matIdx = -1
 		md, _ := meshDefOf(ms.Mesh)
-		name := modelName(k)
+		name := modelNameOf(cs, k)
 		var mine []int
 		for ni, n := range nodes {
 			if s, _ := asObj(n)["name"].(string); s == name {
